@@ -194,6 +194,8 @@ class RetrievalPrecision(Metric[torch.Tensor]):
         Args:
             metrics (Iterable[Metric]): metric instances whose states are to be merged.
         """
+        # `metrics` may be a one-shot iterable; it is walked more than once below
+        metrics = list(metrics)
         for i in range(self.num_queries):
             self.topk[i] = torch.cat([self.topk[i]] + [m.topk[i] for m in metrics]).to(
                 self.device
